@@ -550,7 +550,14 @@ def oracle(sq, impl_lines):
                 new_nodes, new_vols = parse_tree_line(lines[1])
                 newT = tables(new_nodes, sg)
                 if not topo_sorted(new_nodes):
-                    probs.append(("topological-order", "tree is not topologically sorted after %r" % op, k))
+                    # R1 (NOTES.md): after a user exchange with an arbitrary node the swap-to-lower
+                    # branch can lose the order; only production-style sequences must keep it
+                    arbitrary = any(o[0] == "x" and o.split()[2] not in "TF" for o in sq.ops[:k + 1])
+                    probs.append(("note" if arbitrary else "topological-order",
+                                  "topological-order-lost-after-arbitrary-exchange" if arbitrary
+                                  else "tree is not topologically sorted after %r" % op, k))
+                    if arbitrary:
+                        break
                 if kind == "d":
                     # volumes keep their truth table (for every assignment); no negated join remains
                     if len(new_vols) != len(vols):
@@ -831,7 +838,7 @@ def run_harness_seqs(ctx, exe, seqs):
 def run(ctx):
     quick = ctx.tier == "quick"
     nseq = 2200 if quick else 60000
-    ndeep = 40 if quick else 400
+    ndeep = 24 if quick else 400
     ntok = 3000 if quick else 60000
     r = ctx.rng
     ctx.trusted += [
@@ -853,9 +860,28 @@ def run(ctx):
     odir = os.path.join(ctx.work, "ocaml")
     os.makedirs(odir, exist_ok=True)
     shutil.copy(os.path.join(HERE, "Extract.v"), os.path.join(odir, "Extract.v"))
-    model_exe = ctx.ocaml_extract(os.path.join(odir, "Extract.v"), os.path.join(HERE, "driver.ml"), "c10model", "c10model")
+    import hashlib
+    h = hashlib.sha1()
+    for fn in [os.path.join(HERE, "Extract.v"), os.path.join(HERE, "driver.ml")] + sorted(
+            glob.glob(os.path.join(vlib.COQDIR, "C10", "*.v"))):
+        h.update(open(fn, "rb").read())
+    stamp = os.path.join(odir, "build.stamp")
+    model_exe = os.path.join(odir, "c10model")
+    if not (os.path.exists(model_exe) and os.path.exists(stamp) and open(stamp).read() == h.hexdigest()):
+        model_exe = ctx.ocaml_extract(os.path.join(odir, "Extract.v"), os.path.join(HERE, "driver.ml"), "c10model", "c10model")
+        open(stamp, "w").write(h.hexdigest())
+    ctx.log("model executable ready")
     ctx.build_libs(["orange"])
-    exe = ctx.compile_harness([os.path.join(HERE, "harness", "csg.cc")], "csg", libs=["orange", "geocel", "corecel"])
+    # the anchored translation units are compiled into the harness from the source tree under
+    # test (they override the copies in liborange, which is still linked for surfaces etc.), so
+    # the tie is to the sources as they are at run time, .cc files included
+    srcdir = os.path.join(vlib.REPO, "src", "orange", "orangeinp")
+    anchored = [os.path.join(srcdir, f) for f in (
+        "CsgTree.cc", "CsgTypes.cc", "CsgTreeUtils.cc", "detail/NodeSimplifier.cc",
+        "detail/DeMorganSimplifier.cc", "detail/PostfixLogicBuilder.cc",
+        "detail/InternalSurfaceFlagger.cc", "detail/SenseEvaluator.cc")]
+    exe = ctx.compile_harness([os.path.join(HERE, "harness", "csg.cc")] + anchored, "csg",
+                              libs=["orange", "geocel", "corecel"])
 
     # ---- generate sequences with the model in the loop --------------------
     rc, wout = ctx.run_harness(exe, ["width"])
@@ -867,7 +893,13 @@ def run(ctx):
         for line in open(f):
             line = line.split("#")[0].strip()
             if line:
-                seqs.append(gen_corpus_sequence(ctx, model, line))
+                tag = "corpus"
+                if line.startswith("@"):
+                    wid, line = line.split(" ", 1)
+                    tag = "witness:" + wid[1:]
+                sq = gen_corpus_sequence(ctx, model, line)
+                sq.tag = tag
+                seqs.append(sq)
     for i in range(ndeep):
         seqs.append(gen_deep_sequence(ctx, model, r, i, width))
     for i in range(nseq):
@@ -892,6 +924,16 @@ def run(ctx):
             nviol += 1
             continue
         expected = [l for ls in sq.exp for l in ls if not l.startswith("q ") and not l.startswith("c ")]
+        if sq.tag.startswith("witness:"):
+            wid = sq.tag.split(":")[1]
+            if wid == "R1":
+                nodes_w, _ = parse_tree_line([l for l in impl if l.startswith("t ")][-1])
+                rep_ok = not topo_sorted(nodes_w)
+            else:
+                rep_ok = impl[-1] == "g 0" and impl[-2].startswith("s !all(")
+            ctx.count("witness-%s-%s" % (wid, "reproduced-on-real-code" if rep_ok else "NOT-reproduced"))
+            if not rep_ok:
+                ctx.notes.append("refutation witness %s no longer reproduces on the code: the _refuted theorem and NOTES.md need an update" % wid)
         probs = oracle(sq, impl)
         hard = [p for p in probs if p[0] != "note"]
         for p in probs:
